@@ -20,8 +20,14 @@ def main():
     ctx = common.Ctx("SETUP", "quick", 0)
     ok, log = ctx.coq_build(["-k", "all"], timeout=3000)
     print(log[-3000:])
+    # OCaml drivers are built by the checks themselves into their scratch directory on every run
+    # (ocaml/*/build.sh <outdir>); here only a smoke build, to fail early when the toolchain is missing
+    import tempfile, shutil
     for mk in sorted(glob.glob(os.path.join(common.ROOT, "ocaml", "*", "build.sh"))):
-        subprocess.run(["sh", mk], cwd=os.path.dirname(mk), check=False)
+        d = tempfile.mkdtemp(prefix="verif-setup-")
+        r = subprocess.run(["sh", mk, d], cwd=os.path.dirname(mk), check=False)
+        print("ocaml smoke build", os.path.basename(os.path.dirname(mk)), "ok" if r.returncode == 0 else "FAILED")
+        shutil.rmtree(d, ignore_errors=True)
     print("setup: coq build", "ok" if ok else "INCOMPLETE (individual checks will report)")
     return 0
 
